@@ -779,6 +779,41 @@ def mon_c10_locals(im, p):
     return {'fail': fails, 'nontrivial': True}
 
 
+def mon_c10_reenter(im, p):
+    """a host callable bound in `names` that evaluates another program ON THE SAME PARSER with a different mapping while
+    the outer evaluation is running: the two evaluations have separate scope stacks"""
+    fails = []
+    for sc in p['scenarios']:
+        inner = {k: D(v) for k, v in sc.get('inner', {}).items()}
+
+        def sub(src, _inner=inner):
+            return im.p.eval(src, _inner)
+        names = dict(evalimpl.Host({}).fns)
+        names.update({k: D(v) for k, v in sc.get('names', {}).items()})
+        names['sub'] = sub
+        canon = lambda v: '[' + ', '.join(canon(x) for x in v) + ']' if isinstance(v, list) else str(v)
+        try:
+            out = canon(im.p.eval(sc['src'], names, max_ops_evaluated=1000))
+        except Exception as e:
+            out = 'raised ' + type(e).__name__
+        why = None
+        if out != sc['expect']:
+            why = f'result {out}, expected {sc["expect"]}'
+        for k, v in sc.get('outer_after', {}).items():
+            if v is None and k in names:
+                why = why or f'outer mapping got {k!r} = {names[k]!r}'
+            elif v is not None and (k not in names or names[k] != D(v)):
+                why = why or f'outer mapping has {k!r} = {names.get(k)!r}, expected {v}'
+        for k, v in sc.get('inner_after', {}).items():
+            if v is None and k in inner:
+                why = why or f'inner mapping got {k!r} = {inner[k]!r}'
+            elif v is not None and (k not in inner or inner[k] != D(v)):
+                why = why or f'inner mapping has {k!r} = {inner.get(k)!r}, expected {v}'
+        if why:
+            fails.append({'signature': 'reentrant-eval-scopes', 'what': f'{sc["src"]!r} with sub = eval on the same parser with another mapping: {why}', 'input': sc})
+    return {'fail': fails, 'nontrivial': True}
+
+
 def mon_c10_missing(im, p):
     """the host's names mapping is a dict subclass that answers for keys it does not hold (Counter, defaultdict, a subclass
     with __missing__): name resolution must still fall through to the builtins, undefined names must still be undefined,
